@@ -59,6 +59,10 @@ def init_fs(it, env=None):
     # a path is not both a file and a directory
     k = ctx.fresh(S, 'p')
     ctx.assume(z3.ForAll([k], z3.Not(z3.And(ctx.ghost['fs_files'].arr[k] != pv.PAbsent, ctx.ghost['fs_dirs'].arr[k]))))
+    # file contents are byte strings, time stamps are integers
+    fa, ma = ctx.ghost['fs_files'].arr, ctx.ghost['fs_mtime'].arr
+    ctx.assume(z3.ForAll([k], z3.Or(fa[k] == pv.PAbsent, PV.is_PBytes(fa[k]))))
+    ctx.assume(z3.ForAll([k], PV.is_PInt(ma[k])))
 
 
 def sterm(v):
@@ -315,7 +319,7 @@ def file_read(it, f, args, kwargs):
     if args:
         n = pv.as_term_int(args[0])
         raw = PV.by(content)
-        cut = z3.SubString(raw, 0, z3.If(z3.Length(raw) < n, z3.Length(raw), n))
+        cut = z3.SubString(raw, 0, n)      # substr clamps at the end of the string, like read(n)
         return SAny(PV.PBytes(cut)) if binary else SStr(B.py_decode(cut))
     if binary:
         return SAny(content)
@@ -336,8 +340,14 @@ def file_close(it, f):
 
 
 def m_unpack(it, args, kwargs):
-    """struct.unpack('<L', 4 bytes) -> (int,)"""
-    return (SInt(pyc_time(lift(args[1]))),)
+    """struct.unpack('<L', b) -> (int,) for exactly 4 bytes, struct.error otherwise"""
+    b = bytes_term(args[1])
+    if not it.ctx.branch(z3.Length(b) == 4, 'unpack-len'):
+        e = VObj('struct.error')
+        e.fields['args'] = ('unpack requires a buffer of 4 bytes',)
+        e.fields['msg'] = e.fields['args'][0]
+        raise PyRaise(e, None)
+    return (SInt(pyc_time(PV.PBytes(b))),)
 
 
 def m_gmtime(it, args, kwargs):
